@@ -197,8 +197,13 @@ def path_rules(ct, cd, rep, names=None, include_setters=True, prefix=""):
         for rid, (rev, why) in sorted(rej.items()):
             if rid in reach_from_effect and not (rid in eff and first_eff[rid] is eff[rid] and len([x for x in eff if rid in cfg.reachable(cfg.nodes[x], normal_only=False)]) == 0):
                 fe = first_eff[rid]
+                construct = None
+                if getattr(rev, "kind", "") == "self_call":
+                    # keyed by the calls involved, not by how their arguments are spelt
+                    after = f"{fe.meth}()" if getattr(fe, "kind", "") == "self_call" else norm(head(fe.stmt))
+                    construct = f"{rev.meth}() may refuse after {after}"
                 rep.fail(prefix + "validate-before-effect", mod, fq, rev.stmt,
-                         f"{why} AFTER the file/table was already changed by `{norm(head(fe.stmt))}`: a refusal here leaves a half-applied mutation")
+                         f"{why} AFTER the file/table was already changed by `{norm(head(fe.stmt))}`: a refusal here leaves a half-applied mutation", construct=construct)
             else:
                 n_early += 1
                 rep.ok(prefix + "early-rejections", f"{fq}: `{norm(head(rev.stmt))[:80]}` ({why}) precedes every effect", nontrivial=True)
